@@ -6,7 +6,7 @@ ROOT = os.path.dirname(os.path.dirname(os.path.abspath(__file__)))
 # id -> (technique, level text, level note, design ref)
 CHECKS = {
  "C01": ("exhaustive enumeration vs. independently walked calendar (model-based differential)",
-         "Complete enumeration of the stated finite domain (all 3,652,059 day numbers, their out-of-range neighbours, the whole (y,m,d) grid) against a calendar built by day-by-day stepping; this decides the property for every input it quantifies over, short of a bug shared by the 60-line reference walk. The same triples are also written as text and read through the parse entry points of Date, Timestamp and OracleDate (separate validators), with the same acceptance and error-kind rule (seven pictures, two of them with a two-letter year token given four digits, where only an accepted value is judged). Ordering includes the provided Ord methods (max, min, clamp) and sorting.",
+         "Complete enumeration of the stated finite domain (all 3,652,059 day numbers, their out-of-range neighbours, the whole (y,m,d) grid) against a calendar built by day-by-day stepping; this decides the property for every input it quantifies over, short of a bug shared by the 60-line reference walk. The same triples are also written as text and read through the parse entry points of Date, Timestamp and OracleDate (separate validators), with the same acceptance and error-kind rule (ten pictures: two with a two-letter year token given four digits, where only an accepted value is judged, three with a minus sign on the day or month, which name no date). Ordering includes the provided Ord methods (max, min, clamp) and sorting.",
          "Trusted: the reference walk (month lengths + leap rule + Thursday anchor as written in the statement), the Rust toolchain. Both tiers are exhaustive.",
          "4/C01"),
  "C07": ("exhaustive enumeration + boundary-pool pairs vs. i128 div/rem model (model-based differential)",
@@ -50,11 +50,11 @@ CHECKS = {
          "Trusted: the reference tokenizer written from the token list in the statement. Language membership beyond length 5 is sampled by grammar-based generation.",
          "4/C19"),
  "C02": ("operation-table cross-product sweeps + proptest operands vs. range predicates and exact models (validity oracle)",
-         "Every row of a 130-row table of safe public operations is crossed with boundary+seeded operand pools and extreme scalars, and fed proptest-generated operands; every returned value must satisfy its type's range predicate, rows with an exact model must return Ok(exact) iff in range (so clamping or an in-range wrap is caught), month arithmetic must match the month model or fail, and speller-built parse inputs at / past the edges must yield Err or an in-range value. Integers of every width handed to each type's Deserialize (serde de::value deserializers) must give an error or exactly the in-range value they denote, never a wrapped image. Runs under both build profiles (release and overflow-checked) in every tier; scaling by limit-tuned factors, public constants and leap-second clock reads are included.",
+         "Every row of a 130-row table of safe public operations is crossed with boundary+seeded operand pools and extreme scalars, and fed proptest-generated operands; every returned value must satisfy its type's range predicate, rows with an exact model must return Ok(exact) iff in range (so clamping or an in-range wrap is caught), month arithmetic must match the month model or fail, and speller-built parse inputs at / past the edges must yield Err or an in-range value. Integers of every width handed to each type's Deserialize (serde de::value deserializers) must give an error or exactly the in-range value they denote, never a wrapped image. Runs under both build profiles (release and overflow-checked) in every tier; scaling by limit-tuned factors, public constants, leap-second clock reads and clocks outside the supported range are included.",
          "Trusted: range limits derived from the walked calendar and the statement; the operation table is hand-written from the public API (a new public function is not picked up automatically). Sampled over operand space; boundary regions by construction.",
          "4/C02"),
  "C03": ("exhaustive short strings + proptest grammar/mutation generation + operation table with extreme scalars, oracle = catch_unwind; both build profiles; libFuzzer target in thorough",
-         "All strings up to length 3 (quick) / 4 (thorough) as pictures and as inputs, every string up to length 2 / 3 before and after 28..38 one-character tokens, grammar pictures with long blank runs x mutated formatted inputs, and every operation-table row with extreme scalars are executed under release and under overflow-checked/debug-assertion builds; any panic in a safe call is a violation. Thorough adds a coverage-guided libFuzzer campaign (overflow checks on) over (type, picture, input) bytes. Long texts / pictures with a multi-byte character across every byte offset and a re-entrant sink are included.",
+         "All strings up to length 3 (quick) / 4 (thorough) as pictures and as inputs, every string up to length 2 / 3 before and after 28..38 one-character tokens, every token spelling with every 0..2-character affix x signed / short inputs, grammar pictures with long blank runs x mutated formatted inputs, and every operation-table row with extreme scalars are executed under release and under overflow-checked/debug-assertion builds; any panic in a safe call is a violation. Thorough adds a coverage-guided libFuzzer campaign (overflow checks on) over (type, picture, input) bytes. Long texts / pictures with a multi-byte character across every byte offset and a re-entrant sink are included.",
          "Trusted: std::panic::catch_unwind observing every library call. Absence of panics is established only for what was generated; long structured inputs are sampled.",
          "4/C03"),
  "C05": ("exhaustive (year, day-of-year) / date / second sweeps + constructive speller with proptest shrinking; oracle = value known by construction, single-component perturbations must be rejected",
